@@ -96,17 +96,21 @@ def mkEdge (rows : List Row) (src dst : NodeId) (ty : ETy) (zeroWeight : Bool) :
 
 /-- networkx `DiGraph.add_edge`: a second edge between the same two nodes replaces the first. -/
 def addEdge (g : G) (e : Edge) : G :=
-  { g with edges := (g.edges.filter fun x => !(x.src == e.src && x.dst == e.dst)) ++ [e] }
+  { g with edges := (g.edges.filter fun x => !(decide (x.src = e.src) && decide (x.dst = e.dst))) ++ [e] }
+
+/-- The event `_attribute_edge` picks for an attributable edge. -/
+def attrEv (e : Edge) (srcParent : Int) : Int :=
+  if e.ty == .kk then e.src.ev
+  else if e.src.isStart then e.src.ev
+  else if !e.dst.isStart then e.dst.ev
+  else srcParent
 
 /-- `_attribute_edge` -/
 def attributeEdge (g : G) (e : Edge) (srcParent : Int) : G :=
   if e.ty != .op && e.ty != .kk then g
   else
-    let ev := if e.ty == .kk then e.src.ev
-      else if e.src.isStart then e.src.ev
-      else if !e.dst.isStart then e.dst.ev
-      else srcParent
-    { g with attr := (g.attr.filter fun x => !(x.1 == e.src && x.2.1 == e.dst)) ++ [(e.src, e.dst, ev)] }
+    { g with attr := (g.attr.filter fun x => !(decide (x.1 = e.src) && decide (x.2.1 = e.dst)))
+        ++ [(e.src, e.dst, attrEv e srcParent)] }
 
 /-- What the construction emits: an edge to add through `_add_edge_helper`, followed by
 `_attribute_edge(e, par)` (a no-op for edge types that carry no attribution). -/
@@ -137,7 +141,10 @@ structure DS where
 /-- `enter_func` / `exit_func` for one token: the new closure state and the emitted edges. -/
 def dfsStep (nodeEv : Int → Bool) (parent : Int → Int) (blocking : Int → Bool)
     (s : DS) (t : C03.Tok) : DS × List Desc :=
-  if !nodeEv t.idx then (s, [])
+  if !nodeEv t.idx then
+    -- an event without graph nodes (e.g. a user annotation): when it ends, edges leaving it are
+    -- attributed to its parent from now on
+    (if t.kind == 1 && s.lastPar == t.idx then { s with lastPar := parent t.idx } else s, [])
   else if t.kind == -1 then
     let start : NodeId := ⟨t.idx, true⟩
     let dep : List Desc := match s.depth, s.lastHigh with
